@@ -132,6 +132,13 @@ def history(rng, tier):
             for g in w.alive('G', block=v.block)[:2]: alias(REL_OF[v.kind], g)
         elif v.kind == 'O':
             for h in w.alive(['A', 'T', 'G'], block=v.block)[:3]: alias('src', h)
+        # everything below the victim goes with it (sub-sections and sub-sources at every depth, the children of a block):
+        # their handles are asked as well
+        below, frontier = [], [v.slot]
+        while frontier:
+            nxt = [e for e in w.ents if e.alive and e.parent in frontier]
+            below += nxt
+            frontier = [e.slot for e in nxt]
         w.emit('dump')
         how = rng.choice(['name', 'handle', 'idof'])
         if how == 'idof':
@@ -143,6 +150,8 @@ def history(rng, tier):
         w.emit('valid %s deleted' % v.slot)
         for sl in aliases:
             w.emit('valid %s deleted' % sl)
+        for e in below[:12]:
+            w.emit('valid %s deleted' % e.slot)
     return w.lines
 
 def cases(tier, seed, rng):
